@@ -275,21 +275,25 @@ def run(ctx):
                     return "full"
                 ds = la.get(e.id, [])
                 kinds = {root_uri(d[1]) for d in ds if d[0] == "assign"}
+                # head, _, _ = uri.partition(sep)
+                kinds |= {root_uri(ast.Subscript(value=d[1], slice=ast.Constant(d[2]), ctx=ast.Load())) for d in ds if d[0] == "unpack"}
                 return kinds.pop() if len(kinds) == 1 else "mixed"
             if isinstance(e, ast.Call) and isinstance(e.func, ast.Attribute) and isinstance(e.func.value, ast.Name) \
                     and e.func.value.id == "self" and e.func.attr in ("_cache_file_name", "_cache_file_path") and e.args:
                 return root_uri(e.args[0])
             if isinstance(e, ast.Subscript) and isinstance(e.value, ast.Call) and isinstance(e.value.func, ast.Attribute) \
-                    and e.value.func.attr == "split":
+                    and e.value.func.attr in ("split", "partition"):
                 inner = root_uri(e.value.func.value)
-                return "stripped" if inner == "full" else inner
+                first = isinstance(e.slice, ast.Constant) and e.slice.value == 0
+                return ("stripped" if first else "other") if inner == "full" else inner
             return "other"
 
         ctx.expect(root_uri(kws.get("filename")) == "full", "R18.2", "get_cache_misses[filename]",
                    "cache file name derives from the full URI including its comment", gm.loc(cm_calls[0]))
         ctx.expect(root_uri(kws.get("filepath")) == "full", "R18.2", "get_cache_misses[filepath]",
                    "cache file path derives from the full URI including its comment", gm.loc(cm_calls[0]))
-        ctx.expect(root_uri(kws.get("uri")) == "stripped", "R18.2", "get_cache_misses[download uri]",
+        kind_dl = root_uri(kws.get("uri"))
+        ctx.expect(True if kind_dl == "stripped" else False if kind_dl == "full" else None, "R18.2", "get_cache_misses[download uri]",
                    "only the URI handed to the download function has the comment stripped", gm.loc(cm_calls[0]))
     from .fc import inline_value_calls
     gi = inline_value_calls(p, p.get_method(FC, "__getitem__"), keep=CACHE_VOCABULARY)
@@ -529,8 +533,14 @@ def run(ctx):
         if not key_ok and isinstance(key, ast.Attribute) and key.attr == "__getitem__" and isinstance(key.value, ast.Name):
             # sorted(names, key=stamps.__getitem__): ordered by the stamp each name maps to, when `stamps` is built as {name: stamp}
             defs = [d for d in la_ev.get(key.value.id, []) if d[0] == "assign"]
+            stamp_words = ("getatime", "getmtime", "st_atime", "st_mtime")
             key_ok = len(defs) == 1 and isinstance(defs[0][1], ast.DictComp) and any(
-                w in ast.unparse(_sdef(ev.node, defs[0][1].value, {"self"})) for w in ("getatime", "getmtime"))
+                w in ast.unparse(_sdef(ev.node, defs[0][1].value, {"self"})) for w in stamp_words)
+            if not key_ok and len(defs) == 1 and isinstance(defs[0][1], ast.List) and not defs[0][1].elts:
+                # ... or a list filled in step with the candidates: stamps.append(<stamp of candidate i>)
+                apps = [c for c in calls(ev.node) if isinstance(c.func, ast.Attribute) and c.func.attr == "append"
+                        and isinstance(c.func.value, ast.Name) and c.func.value.id == key.value.id and c.args]
+                key_ok = len(apps) == 1 and any(w in ast.unparse(_sdef(ev.node, apps[0].args[0], {"self"})) for w in stamp_words)
             key_ok = True if key_ok else None
         oldest_first = (rev_v is True and pop_last) or (rev_v is False and pop_first)
         ctx.expect(oldest_first if rev_v is not None and (pop_first or pop_last) else None, "R18.5",
@@ -544,16 +554,19 @@ def run(ctx):
     stamp = None
     cands = [n.elts[0] for n in ast.walk(ev.node) if isinstance(n, ast.Tuple) and len(n.elts) == 2 and isinstance(n.ctx, ast.Load)]
     cands += [n.value for n in ast.walk(ev.node) if isinstance(n, ast.DictComp)]
+    cands += [c.args[0] for c in calls(ev.node) if isinstance(c.func, ast.Attribute) and c.func.attr == "append" and len(c.args) == 1
+              and not isinstance(c.args[0], ast.Tuple)]
     for tp in cands:
         e0 = _sdef(ev.node, tp, {"self"})
         txt = ast.unparse(e0)
-        if "getatime" not in txt and "getmtime" not in txt and not any(isinstance(c, ast.Call) and isinstance(
+        if "getatime" not in txt and "getmtime" not in txt and "st_atime" not in txt and "st_mtime" not in txt and not any(isinstance(c, ast.Call) and isinstance(
                 p.resolve_expr(ev.module, c.func) if isinstance(c.func, (ast.Name, ast.Attribute)) else None, type(ev)) for c in ast.walk(e0)):
             continue
         env = Env(it2, ev, ev.module)
         for nm_ in {x.id for x in ast.walk(e0) if isinstance(x, ast.Name)}:
             if nm_ not in ("os", "max", "min", "self") and p.resolve_name(ev.module, nm_) is None:
                 env.vars.setdefault(nm_, P("entry_path"))
+        env.vars.setdefault("self", P("self"))
         try:
             term = T.to_term(it2.eval(e0, env))
         except Exception:
